@@ -391,3 +391,139 @@ where
         _ => "bad-op".to_string(),
     }
 }
+
+/// Raw NTT120 kernels through the public primitive traits, one request = one kernel call on explicit operands
+/// (no layouts, no scratch): the bit-for-bit twin of the lane / whole-kernel theorems `C10.NttAvx.*`.
+/// `id nk be=<nref|navx> op=<…> [n=] [x=..] [y=..] [rows= stride= blk=]`
+pub fn nk<T>(r: &Req) -> String
+where
+    T: poulpy_cpu_ref::reference::ntt120::NttDFTExecute<poulpy_cpu_ref::reference::ntt120::ntt::NttTable<poulpy_cpu_ref::reference::ntt120::primes::Primes30>>
+        + poulpy_cpu_ref::reference::ntt120::NttDFTExecute<poulpy_cpu_ref::reference::ntt120::ntt::NttTableInv<poulpy_cpu_ref::reference::ntt120::primes::Primes30>>
+        + poulpy_cpu_ref::reference::ntt120::NttAdd
+        + poulpy_cpu_ref::reference::ntt120::NttAddAssign
+        + poulpy_cpu_ref::reference::ntt120::NttSub
+        + poulpy_cpu_ref::reference::ntt120::NttSubAssign
+        + poulpy_cpu_ref::reference::ntt120::NttSubNegateAssign
+        + poulpy_cpu_ref::reference::ntt120::NttNegate
+        + poulpy_cpu_ref::reference::ntt120::NttNegateAssign
+        + poulpy_cpu_ref::reference::ntt120::NttToZnx128
+        + poulpy_cpu_ref::reference::ntt120::NttMulBbb
+        + poulpy_cpu_ref::reference::ntt120::NttMulBbc1ColX2
+        + poulpy_cpu_ref::reference::ntt120::NttMulBbc2ColsX2
+        + poulpy_cpu_ref::reference::ntt120::NttPackLeft1BlkX2
+        + poulpy_cpu_ref::reference::ntt120::NttPackRight1BlkX2
+        + poulpy_cpu_ref::reference::ntt120::NttPairwisePackLeft1BlkX2
+        + poulpy_cpu_ref::reference::ntt120::NttPairwisePackRight1BlkX2,
+{
+    use poulpy_cpu_ref::reference::ntt120::{
+        mat_vec::{BbbMeta, BbcMeta},
+        ntt::{NttTable, NttTableInv},
+        primes::Primes30,
+    };
+    const CAN: u64 = 0xA5A5_0000_1111_2222u64;
+    let u32s = |v: &[u64]| -> Vec<u32> { v.iter().flat_map(|w| [*w as u32, (*w >> 32) as u32]).collect() };
+    let u64s = |v: &[u32]| -> Vec<u64> { v.chunks(2).map(|c| c[0] as u64 | ((c[1] as u64) << 32)).collect() };
+    let fin64 = |g: &G<u64>| -> String {
+        let mut s = show(g.s());
+        if g.stray().is_some() {
+            s.push_str("|stray");
+        }
+        s
+    };
+    let op = r.get("op").unwrap_or("");
+    let x: Vec<u64> = r.list("x");
+    let y: Vec<u64> = r.list("y");
+    match op {
+        "consts" => {
+            let m = BbbMeta::<Primes30>::new();
+            format!(
+                "bbb_h={} s1h={} s2l={} s2h={} s3l={} s3h={} s4l={} s4h={}",
+                m.h,
+                m.s1h_pow_red,
+                show(&m.s2l_pow_red),
+                show(&m.s2h_pow_red),
+                show(&m.s3l_pow_red),
+                show(&m.s3h_pow_red),
+                show(&m.s4l_pow_red),
+                show(&m.s4h_pow_red)
+            )
+        }
+        "ntt" | "intt" => {
+            let n = r.usize("n");
+            let mut d = G::new(&x, CAN);
+            if op == "ntt" {
+                let t = NttTable::<Primes30>::new(n);
+                <T as poulpy_cpu_ref::reference::ntt120::NttDFTExecute<NttTable<Primes30>>>::ntt_dft_execute(&t, d.m());
+            } else {
+                let t = NttTableInv::<Primes30>::new(n);
+                <T as poulpy_cpu_ref::reference::ntt120::NttDFTExecute<NttTableInv<Primes30>>>::ntt_dft_execute(&t, d.m());
+            }
+            fin64(&d)
+        }
+        "add" | "sub" | "negate" => {
+            let mut res = G::new(&vec![0u64; x.len()], CAN);
+            match op {
+                "add" => T::ntt_add(res.m(), &x, &y),
+                "sub" => T::ntt_sub(res.m(), &x, &y),
+                _ => T::ntt_negate(res.m(), &x),
+            }
+            fin64(&res)
+        }
+        "add_assign" | "sub_assign" | "sub_negate_assign" | "negate_assign" => {
+            let mut res = G::new(&x, CAN);
+            match op {
+                "add_assign" => T::ntt_add_assign(res.m(), &y),
+                "sub_assign" => T::ntt_sub_assign(res.m(), &y),
+                "sub_negate_assign" => T::ntt_sub_negate_assign(res.m(), &y),
+                _ => T::ntt_negate_assign(res.m()),
+            }
+            fin64(&res)
+        }
+        "to_znx128" => {
+            let n = x.len() / 4;
+            let mut res = G::new(&vec![0i128; n], 0x5151_5151_5151_5151_5151i128);
+            T::ntt_to_znx128(res.m(), n, &x);
+            let mut s = show(res.s());
+            if res.stray().is_some() {
+                s.push_str("|stray");
+            }
+            s
+        }
+        "mul_bbb" => {
+            let ell = x.len() / 4;
+            let m = BbbMeta::<Primes30>::new();
+            let mut res = G::new(&vec![0u64; 4], CAN);
+            T::ntt_mul_bbb(&m, ell, res.m(), &x, &y);
+            fin64(&res)
+        }
+        "mul_bbc_x2" | "mul_bbc_2cols" => {
+            let ell = x.len() / 8;
+            let m = BbcMeta::<Primes30>::new();
+            let (xv, yv) = (u32s(&x), u32s(&y));
+            let mut res = G::new(&vec![0u64; if op == "mul_bbc_x2" { 8 } else { 16 }], CAN);
+            if op == "mul_bbc_x2" {
+                T::ntt_mul_bbc_1col_x2(&m, ell, res.m(), &xv, &yv);
+            } else {
+                T::ntt_mul_bbc_2cols_x2(&m, ell, res.m(), &xv, &yv);
+            }
+            fin64(&res)
+        }
+        "pack_left" | "pairwise_pack_left" | "pack_right" | "pairwise_pack_right" => {
+            let (rows, stride, blk) = (r.usize("rows"), r.usize("stride"), r.usize("blk"));
+            let mut dst = G::new(&vec![0u32; 16 * rows], 0xDEAD_BEEFu32);
+            match op {
+                "pack_left" => T::ntt_pack_left_1blk_x2(dst.m(), &x, rows, stride, blk),
+                "pairwise_pack_left" => T::ntt_pairwise_pack_left_1blk_x2(dst.m(), &x, &y, rows, stride, blk),
+                // q120c operands travel as u64 words (two u32 each); `stride` is given in u32 units as the trait wants
+                "pack_right" => T::ntt_pack_right_1blk_x2(dst.m(), &u32s(&x), rows, stride, blk),
+                _ => T::ntt_pairwise_pack_right_1blk_x2(dst.m(), &u32s(&x), &u32s(&y), rows, stride, blk),
+            }
+            let mut s = show(&u64s(dst.s()));
+            if dst.stray().is_some() {
+                s.push_str("|stray");
+            }
+            s
+        }
+        _ => "bad-op".to_string(),
+    }
+}
